@@ -133,7 +133,9 @@ META = {
               "from the enclosing context, inside nothing / a context / "
               "another application block, containing nothing / a context / "
               "an application block, left normally or by an exception from "
-              "the body or from the inner block (72 histories).  Unit "
+              "the body or from the inner block, the caller having registered "
+              "0, 1 or 3 clean-up functions of its own on the block's "
+              "context (216 histories).  Unit "
               "'connection' (12 units per machine, by (y - root_y) mod 12): "
               "x, y symbolic integers inside the machine; quick: 24x24 "
               "root (0,0), 24x12 root (7,3); registered connections: every "
@@ -1110,6 +1112,10 @@ def h_application(ctx):
     exits = ["normal", "exc-body"] + (["exc-inner"] if inner != "none"
                                       else [])
     how = ctx.pick(exits)
+    # the caller's own clean-up functions registered on the block's context
+    # (before_close) next to the stop the block registers itself
+    extra = ctx.pick((0, 1, 2))
+    ran = []
     a0, a1, a2 = (sym(ctx, "app_id", "outer"), sym(ctx, "app_id", "app"),
                   sym(ctx, "app_id", "inner"))
     STOP, START = 2, 3          # AppSignal numbers (consts.AppSignal docs)
@@ -1135,6 +1141,12 @@ def h_application(ctx):
                 cm = (mc.application(a1) if way == "pos" else
                       mc.application(app_id=a1) if way == "kw" else
                       mc.application())
+                if extra >= 1:
+                    cm.before_close(lambda: ran.append("f"))
+                if extra == 2:
+                    cm.before_close(lambda: ran.append("g"),
+                                    lambda: ran.append("h"))
+                    ctx.witness("own clean-up functions")
                 try:
                     with cm:
                         probe(eff)
@@ -1173,10 +1185,12 @@ def h_application(ctx):
             outcome = type(e).__name__ + ": " + str(e)[:200]
         sent = env.wire[mark:]
         ctx.observe(outcome, len(sent),
-                    [(q.arg2, t) for t, q in sent])
+                    [(q.arg2, t) for t, q in sent], list(ran))
         if not ctx.prove(outcome == "ok", "call-failed", outcome):
             return
         ctx.witness("application-left")
+        ctx.prove(ran == ["f", "g", "h"][:(0, 1, 3)[extra]],
+                  "before-close-functions-not-each-called-once", list(ran))
         if not ctx.prove(len(sent) == len(expected),
                          "application-stop-signal-count",
                          (len(sent), [e[0] for e in expected])):
@@ -1770,7 +1784,8 @@ def units(tier, seed):
     us.append(Unit("BMP set_led with an iterable of boards", h_bmp_boards, {},
                    split=3, witnesses=("sent",)))
     us.append(Unit("application blocks", h_application, {}, split=2,
-                   witnesses=("application-left", "left-by-exception")))
+                   witnesses=("application-left", "left-by-exception",
+                              "own clean-up functions")))
     if quick:
         machines = [((24, 24), (0, 0)), ((24, 12), (7, 3))]
         methods = ("get_chip_info", "read")
